@@ -14,6 +14,7 @@ import (
 	"encoding/binary"
 	"encoding/hex"
 	"fmt"
+	"runtime"
 	"strings"
 	"sync"
 	"sync/atomic"
@@ -1425,13 +1426,13 @@ func runC14(res *hx.Result, rng *hx.Rng, tier string, outdir string) {
 		"concurrent: 3-4 threads (server mailbox, second mailbox through DirectClient, the implementor's goroutine, a second connection) x 2-4 operations, " +
 		"stamped by one atomic counter, half of them with a write held inside the validator while others complete; " +
 		"non-trivial = an invalid or wrongly-typed write is present (sequential), a user id collision, a re-registration or an invalid write is present (subscriber table), or two operations of different threads overlap (concurrent); distinct by sha256"
-	nSeq, nReg, nConc := 120, 60, 80
+	nSeq, nReg, nConc, nMulti := 120, 60, 80, 40
 	if tier == "thorough" {
-		nSeq, nReg, nConc = 4000, 3000, 4000
+		nSeq, nReg, nConc, nMulti = 4000, 3000, 4000, 2000
 	}
 	on := c14Probe(res)
-	cf := hx.NewCases(outdir, "C14", "From QV Require Import Bytes Property PropertySubs Lin C14Run.", "mismatches cfg scases ccases rcases", res,
-		"scases", "scase", "ccases", "ccase", "rcases", "rcase")
+	cf := hx.NewCases(outdir, "C14", "From QV Require Import Bytes Property PropertySubs PropertyMulti Lin C14Run.", "mismatches cfg scases ccases rcases mcases", res,
+		"scases", "scase", "ccases", "ccase", "rcases", "rcase", "mcases", "mcase")
 	cf.Extra = append(cf.Extra, "Local Open Scope N_scope.", fmt.Sprintf("Definition cfg := mkcfg %s.", hx.Bool(on)))
 	c14Sequential(res, rng, cf, nSeq)
 	if tier == "thorough" {
@@ -1440,6 +1441,14 @@ func runC14(res *hx.Result, rng *hx.Rng, tier string, outdir string) {
 		res.Notes = append(res.Notes, "exhaustive part: every sequence of length <= 5 over {get, set 5, set 7, set -1, set String(abcd), UpdateDelay(9)} on a fresh object with one subscriber (9330 sequences)")
 	}
 	c14Concurrent(res, rng, cf, nConc)
-	c14Registry(res, rng, cf, nReg) // last: the sequences above keep the random stream they had before this family existed
+	c14Registry(res, rng, cf, nReg) // after the two above: they keep the random stream they had before this family existed
+	// objects with several properties (c14multi.go); these schedules want several CPUs
+	if prev := runtime.GOMAXPROCS(0); prev < 4 {
+		runtime.GOMAXPROCS(4)
+		defer runtime.GOMAXPROCS(prev)
+	}
+	res.Notes = append(res.Notes, fmt.Sprintf("several-property families ran with GOMAXPROCS=%d on %d CPUs", runtime.GOMAXPROCS(0), runtime.NumCPU()))
+	c14MultiConcurrent(res, rng, cf, nMulti)
+	c14MultiRace(res, rng, cf, tier)
 	cf.Flush()
 }
